@@ -49,7 +49,8 @@ ERR, ANY, BOOL = B("error"), B("any"), B("bool")
 SRC_KIND, DEST_KIND = NM("src", "Kind", INT), NM("dest", "Kind", INT)
 SRC_LABEL, DEST_TEXT, DEST_CODE = NM("src", "Label", STR), NM("dest", "Text", STR), NM("dest", "Code", I32)
 SRC_SUB, DEST_SUB = NM("src", "Sub", ("st", "N:int")), NM("dest", "Sub", ("st", "N:int,Other:string"))
-SRC_ITEM, DEST_ITEM = NM("src", "Item", ("st", "V:string")), NM("dest", "Item", ("st", "V:string"))
+SRC_ITEM = NM("src", "Item", ("st", "V:string,Sub:*Sub,Subs:[]*Sub"))
+DEST_ITEM = NM("dest", "Item", ("st", "V:string,Sub:*Sub,Subs:[]Sub"))
 DEST_DEC = NM("dest", "Dec", ("st", "V:int"))
 MAP_SI, MAP_SS = O("map[string]int"), O("map[string]string")
 
@@ -58,7 +59,11 @@ SRC_TYPES_GO = """package src
 type Kind int
 type Label string
 type Sub struct{ N int }
-type Item struct{ V string }
+type Item struct {
+	V    string
+	Sub  *Sub   // nil-ness below a mapped sub-struct: the oracle varies these (never the first field)
+	Subs []*Sub
+}
 """
 DEST_TYPES_GO = """package dest
 
@@ -69,7 +74,11 @@ type Sub struct {
 	N     int
 	Other string
 }
-type Item struct{ V string }
+type Item struct {
+	V    string
+	Sub  *Sub
+	Subs []Sub
+}
 type Dec struct{ V int }
 """
 
@@ -334,11 +343,14 @@ def render_src(spec, modpath, pkgname="src"):
         key = spec["flags"]["alias"] or "dest"
         kp = key[:1].upper() + key[1:]
         dt = "dest." + spec["dname"]
+        # a hook body that "assigns" fields (self-assignments: the analysis sees an assignment, the value does not change)
+        wb = "".join(" d.%s = d.%s;" % (n, n) for n in man.get("wfields", []))
+        rb = "".join(" x.%s = x.%s;" % (n, n) for n in man.get("rfields", []))
         if man.get("write"):
-            body.append("func (x %s%s) %s%s(d *%s) {}\n" % ("" if man.get("recvval") else "*", s["name"], man["write"], kp, dt))
+            body.append("func (x %s%s) %s%s(d *%s) {%s }\n" % ("" if man.get("recvval") else "*", s["name"], man["write"], kp, dt, wb))
         if man.get("read"):
-            body.append("func (x %s%s) %s%s(d %s%s) {}\n" % ("" if man.get("recvval") else "*", s["name"], man["read"], kp,
-                                                           "*" if man.get("readptr") else "", dt))
+            body.append("func (x %s%s) %s%s(d %s%s) {%s }\n" % ("" if man.get("recvval") and not rb else "*", s["name"], man["read"], kp,
+                                                            "*" if man.get("readptr") else "", dt, rb))
     for d in embed_decls(s):
         body.append(render_struct(d, "src"))
         body.append("")
@@ -403,15 +415,17 @@ def make_case(cid, spec, masks=None, fmasks=None, roundtrip=False, prop="C05"):
     # constructors/accessors first (C15)
     for side, tname in (("dest", spec["dname"]), ("src", spec["sname"])):
         if spec[side]["kind"] == "new":
-            for e in embed_decls(spec[side]):        # embedded accessor-mode types first: their interfaces get embedded
+            for e in reversed(embed_decls(spec[side])):   # embedded accessor-mode types first, innermost first: their interfaces get embedded
                 runs.append({"args": ["new", "-getset", "-type=" + e["name"]], "cwd": side})
             runs.append({"args": ["new", "-getset", "-type=" + tname], "cwd": side})
     spec["first_map_run"] = len(runs)
     # the helper struct types get their own mappers (same flags, so that the method names agree)
     helper = dict(spec, flags=dict(spec["flags"], i=False, way="both"))
-    for sub in ("Sub", "Item"):
-        if uses_type(spec, NM("src", sub, SRC_SUB[3] if sub == "Sub" else SRC_ITEM[3])):
-            runs.append({"args": map_args(helper, sub), "cwd": "src"})
+    need_item = uses_type(spec, SRC_ITEM)
+    if need_item or uses_type(spec, SRC_SUB):          # Item's mapper calls Sub's
+        runs.append({"args": map_args(helper, "Sub"), "cwd": "src"})
+    if need_item:
+        runs.append({"args": map_args(helper, "Item"), "cwd": "src"})
     runs.append({"args": map_args(spec, spec["sname"], spec["dname"]), "cwd": "src"})
     to, frm = method_names(spec)
     oracle = ORACLE_TMPL % {"pkg": pkg, "mod": mod, "s": spec["sname"], "d": spec["dname"], "to": to, "from": frm,
@@ -461,7 +475,9 @@ def case_sexp(cid, spec, masks=None, fmasks=None, prop="C05"):
          ["src", spec["src"]["kind"]] + members_sexp(spec["src"], tix),
          ["dest", spec["dest"]["kind"]] + members_sexp(spec["dest"], tix),
          mx,
-         ["manual"] + ([k for k in ("read", "write") if (spec.get("manual") or {}).get(k)]),
+         ["manual"] + ([k for k in ("read", "write") if (spec.get("manual") or {}).get(k)]) +
+         [["w"] + [Q(n) for n in ((spec.get("manual") or {}).get("wfields", []) if (spec.get("manual") or {}).get("write") else [])],
+          ["r"] + [Q(n) for n in ((spec.get("manual") or {}).get("rfields", []) if (spec.get("manual") or {}).get("read") else [])]],
          ["slots", ["src"] + [Q(x) for x in slots(side_struct(spec, "src"))], ["dest"] + [Q(x) for x in slots(spec["dest"])]],
          ["masks"] + [Q(m) for m in (masks or [])],
          ["fmasks"] + [Q(m) for m in (fmasks or [])]]
@@ -731,6 +747,14 @@ class MapGen:
         if r.random() < o.get("manual", 0.0):
             spec["manual"] = {"write": self.pick([None, "to", "write"]), "read": self.pick(["from", "read", "read"]),
                               "readptr": r.random() < 0.5, "recvval": r.random() < 0.3}
+            if r.random() < o.get("manual_body", 0.5):
+                # the hooks assign some top-level exported fields (by their bare name, as promoted fields are written too)
+                dn = [m["name"] for m in dest["members"] if m["k"] == "f" and m["name"][:1].isupper() and m.get("tag") != "-"]
+                sn = [m["name"] for m in src["members"] if m["k"] == "f" and m["name"][:1].isupper() and m.get("tag") != "-"]
+                if dn and spec["manual"]["write"]:
+                    spec["manual"]["wfields"] = r.sample(dn, r.randint(1, min(2, len(dn))))
+                if sn:
+                    spec["manual"]["rfields"] = r.sample(sn, r.randint(1, min(2, len(sn))))
         return spec
 
 
@@ -775,7 +799,11 @@ def to_new(rng, spec, side, keep_exported=0.2, getonly=0.15, setonly=0.15, newma
         inner = [dict(m, new=False, tag=None) for m in members[:k] if m.get("tag") != "-"]
         if inner:
             ename = "Base" if side == "src" else "Core"
-            members = [E(ST(ename, inner, "new"))] + members[k:]
+            if len(inner) >= 2 and rng.random() < 0.4:
+                # a second level: the embedded type embeds another accessor-mode type
+                iname = "Inner" if side == "src" else "Deep"
+                inner = [E(ST(iname, inner[:1], "new"), rng.random() < 0.4)] + inner[1:]
+            members = [E(ST(ename, inner, "new"), rng.random() < 0.4)] + members[k:]
     spec[side] = dict(st, kind="new", members=members)
     return spec
 
@@ -810,6 +838,9 @@ WITNESSES = {
         ("F_skipTagNew", mk_spec([F("Age", INT)], [F("age", INT, "-")], way="to", dest_kind="new")),
         ("F_ctorNoSub", mk_spec([F("Addr", SRC_SUB)], [F("addr", DEST_SUB, get=True)], way="to", dest_kind="new")),
         ("F_ctorTag", mk_spec([F("caption", STR, "Title", get=True)], [F("Title", STR)], way="from", src_kind="new")),
+        ("F_ptrEmbedSetter", mk_spec([F("Name", STR)], [E(ST("Core", [F("name", STR)], "new"), True)], way="to", dest_kind="new")),
+        ("F_ctorPtrEmbed", mk_spec([F("Name", STR), F("ID", INT)], [E(ST("Core", [F("name", STR, get=True)], "new"), True), F("id", INT)],
+                                   way="to", dest_kind="new")),
         ("F_ctorZeroAny", mk_spec([F("ID", INT)], [F("id", INT), F("extra", ANY)], way="to", dest_kind="new")),
     ],
 }
